@@ -66,6 +66,16 @@ func genC12(r *hx.Rand, length int) *hx.Case {
 		if r.Chance(1, 40) {
 			ops = append(ops, op12{K: "lr", B: r.Bool()})
 		}
+		if r.Chance(1, 30) {
+			ops = append(ops, op12{K: "rf", I: r.Intn(4)}) // start from a savepoint taken earlier (plain restart if none)
+			todo = nil
+		}
+		if r.Chance(1, 35) {
+			ops = append(ops, op12{K: "ab"})
+			if r.Bool() {
+				todo = nil
+			}
+		}
 		x := r.Intn(100)
 		switch {
 		case len(todo) == 0 && x < 55, x < 4:
@@ -156,7 +166,7 @@ func genGenerations(r *hx.Rand) *hx.Case {
 				ss = append(ss, uint64(i))
 			}
 			kind := "ck"
-			if r.Chance(1, 8) {
+			if r.Chance(1, 3) {
 				kind = "sp"
 			}
 			ops = append(ops, op12{K: kind, Ops: os, Srs: ss})
@@ -182,7 +192,11 @@ func genGenerations(r *hx.Rand) *hx.Case {
 				ops = append(ops, op12{K: "lr", B: r.Bool()})
 			}
 		}
-		ops = append(ops, op12{K: "rs"})
+		if r.Chance(2, 5) {
+			ops = append(ops, op12{K: "rf", I: r.Intn(3)})
+		} else {
+			ops = append(ops, op12{K: "rs"})
+		}
 	}
 	ops = append(ops, op12{K: "ck", Ops: []uint64{1}, Srs: []uint64{1}})
 	pl++
@@ -240,6 +254,48 @@ func genLoad(r *hx.Rand) *hx.Case {
 	return mkCase("c13", "load", []any{op13{K: "load", IDs: ids}})
 }
 
+// genRewind: a first run takes a savepoint and goes on for k checkpoints with large snapshots; the job is then
+// started again FROM THE SAVEPOINT on the same storage and reaches the same ids with smaller snapshots (the files
+// job-<id>.snapshot of the first run are rewritten with shorter content); then a plain restart.
+func genRewind(r *hx.Rand) *hx.Case {
+	var ops []any
+	base := uint64(0)
+	if r.Chance(1, 4) {
+		base = uint64(r.Range(1, 40))
+	}
+	ops = append(ops, op13{K: "base", ID: base})
+	for i := r.Intn(2); i > 0; i-- {
+		ops = append(ops, op13{K: "pub", N: r.Range(2, 6)}, op13{K: "w"}, op13{K: "r"})
+	}
+	ops = append(ops, op13{K: "pub", N: r.Range(2, 6), Sp: true}, op13{K: "w"}, op13{K: "r"})
+	k := r.Range(0, 3)
+	for i := 0; i < k; i++ {
+		ops = append(ops, op13{K: "pub", N: r.Range(3, 7), Sp: r.Chance(1, 6)}, op13{K: "w"})
+		if r.Chance(3, 4) {
+			ops = append(ops, op13{K: "r"})
+		}
+		if r.Chance(1, 3) {
+			ops = append(ops, op13{K: "t"})
+		}
+	}
+	ops = append(ops, op13{K: "rw", I: r.Intn(2)})
+	m := r.Range(1, k+2)
+	for i := 0; i < m; i++ {
+		ops = append(ops, op13{K: "pub", N: r.Intn(2)}, op13{K: "w"})
+		if r.Chance(3, 4) {
+			ops = append(ops, op13{K: "r"})
+		}
+		if r.Chance(1, 3) {
+			ops = append(ops, op13{K: "t"})
+		}
+	}
+	ops = append(ops, op13{K: "crash"})
+	if r.Bool() {
+		ops = append(ops, op13{K: "pub", N: r.Intn(3)}, op13{K: "w"}, op13{K: "crash"})
+	}
+	return mkCase("c13", "rewind", ops)
+}
+
 func genSched(r *hx.Rand, length int) *hx.Case {
 	var ops []any
 	base := uint64(0)
@@ -255,7 +311,7 @@ func genSched(r *hx.Rand, length int) *hx.Case {
 		x := r.Intn(100)
 		switch {
 		case x < 30 && inflight < 4:
-			ops = append(ops, op13{K: "pub"})
+			ops = append(ops, op13{K: "pub", N: r.Intn(4)})
 			inflight++
 		case x < 60:
 			ops = append(ops, op13{K: "w", I: r.Intn(4)})
@@ -267,11 +323,14 @@ func genSched(r *hx.Rand, length int) *hx.Case {
 			ops = append(ops, op13{K: "r", I: r.Intn(3)})
 		case x < 90:
 			ops = append(ops, op13{K: "t"})
-		case x < 97:
+		case x < 96:
 			ops = append(ops, op13{K: "crash"})
 			inflight, removes = 0, 0
+		case x < 97:
+			ops = append(ops, op13{K: "rw", I: r.Intn(3)}) // start from a savepoint (plain restart if there is none)
+			inflight, removes = 0, 0
 		default:
-			ops = append(ops, op13{K: "pub"}, op13{K: "pub"}, op13{K: "w", I: 1}, op13{K: "w", I: 0})
+			ops = append(ops, op13{K: "pub", N: r.Intn(3), Sp: r.Chance(1, 3)}, op13{K: "pub", N: 5}, op13{K: "w", I: 1}, op13{K: "w", I: 0})
 			inflight += 2
 		}
 	}
@@ -324,6 +383,13 @@ func (eng) Generate(mode, tier string, r *hx.Rand) []*hx.Case {
 		}
 		for i := 0; i < nsched; i++ {
 			cs = append(cs, genSched(r, r.Range(5, 24)))
+		}
+		nrw := 150
+		if thorough {
+			nrw = 1200
+		}
+		for i := 0; i < nrw; i++ {
+			cs = append(cs, genRewind(r))
 		}
 	}
 	return cs
